@@ -40,9 +40,26 @@ def c02(tier, seed, replay):
                 "the end) for every configuration and posting order", tier, seed, replay)
 
 
+def _c03_mp(rep, tier, seed):
+    """'The same holds when the optimisation is distributed over sub-problems by the multiprocessing solver':
+    real splits, real worker streams, every arrival order, plus the synthetic reducer scenarios."""
+    import mp
+    sub = Report("C03", tier, "model_checking")
+    recs, failures = mp.c11_pipeline(sub, tier, seed + 9, jit=False, scale=0.4, synthetic=True)
+    for clause, case in failures:
+        if case["mode"] != "solve" and clause in ("C11:none-iff-infeasible", "C11:optimum-differs-from-sequential",
+                                                  "C11:not-the-best-incumbent", "C11:none-iff-no-incumbent", "C11:raised"):
+            rep.fail(dict(case, clause="C03:distributed-" + clause[4:]),
+                     f"C03:distributed-{clause[4:]} mode={case['mode']} arrival order={case['gets']} streams={case['streams']}")
+    rep.add(states=sub.cov.get("states", 0), transitions=sub.cov.get("transitions", 0),
+            traces_validated_against_impl=sub.cov.get("traces_validated_against_impl", 0))
+    rep.cov["distributed_optimisation_runs"] = sum(1 for x in recs if x["mode"] != "solve")
+
+
 def c03(tier, seed, replay):
     return _run("C03", ("C03:",), "minimise/maximise: incumbents strictly improve, tightening keeps every better "
-                "solution, the result is feasible and optimal, None iff infeasible", tier, seed, replay)
+                "solution, the result is feasible and optimal, None iff infeasible; the same through the multiprocessing "
+                "solver for every arrival order", tier, seed, replay, extra=_c03_mp)
 
 
 def _c04_calls(rep, tier, seed):
